@@ -2,7 +2,7 @@ package assign
 
 import (
 	"fmt"
-	"math"
+	"math/bits"
 
 	"github.com/pkg/errors"
 	"github.com/ysugimoto/falco/v2/interpreter/value"
@@ -20,14 +20,9 @@ func LeftRotate(left, right value.Value) error {
 	lv := value.Unwrap[*value.Integer](left)
 	rv := value.Unwrap[*value.Integer](right)
 	// rotate count is taken modulo 64, negative or oversized count must not cause runtime panic
-	n := uint64(rv.Value) % 64
-	v := (lv.Value << n) | (lv.Value >> (64 - n))
-	if int64(v) > int64(math.MaxInt64) {
-		lv.Value = 0
-		lv.IsPositiveInf = true
-	} else {
-		lv.Value = v
-	}
+	n := int(uint64(rv.Value) % 64)
+	// rotate the bit pattern, shifting a signed value would smear the sign bit
+	lv.Value = int64(bits.RotateLeft64(uint64(lv.Value), n))
 	return nil
 }
 
@@ -43,13 +38,8 @@ func RightRotate(left, right value.Value) error {
 	lv := value.Unwrap[*value.Integer](left)
 	rv := value.Unwrap[*value.Integer](right)
 	// rotate count is taken modulo 64, negative or oversized count must not cause runtime panic
-	n := uint64(rv.Value) % 64
-	v := (lv.Value >> n) | (lv.Value << (64 - n))
-	if int64(v) > int64(math.MaxInt64) {
-		lv.Value = 0
-		lv.IsPositiveInf = true
-	} else {
-		lv.Value = v
-	}
+	n := int(uint64(rv.Value) % 64)
+	// rotate the bit pattern, shifting a signed value would smear the sign bit
+	lv.Value = int64(bits.RotateLeft64(uint64(lv.Value), -n))
 	return nil
 }
